@@ -9,6 +9,7 @@ import (
 	"os/exec"
 	"strconv"
 	"strings"
+	"sync/atomic"
 	"time"
 )
 
@@ -25,27 +26,39 @@ func (r Result) String() string { return [...]string{"unsat", "sat", "unknown"}[
 // Solver drives one long-lived SMT solver process. Definitions are global
 // (:global-declarations); the assertion stack is managed with push/pop.
 type Solver struct {
-	Kind      string // z3 | z3-new | cvc5
-	cmd       *exec.Cmd
-	in        io.WriteCloser
-	out       *bufio.Reader
-	emitted   map[int]bool
-	declared  map[string]bool
-	depth     int
-	Queries   int
-	NSat      int
-	NUnsat    int
-	NUnknown  int
-	Time      time.Duration
-	ModelTime time.Duration
-	OneShots  int
-	TimeoutMs int
-	Log       io.Writer
-	seq       int
-	Errors    []string
+	Kind          string // z3 | z3-new | cvc5
+	cmd           *exec.Cmd
+	in            io.WriteCloser
+	out           *bufio.Reader
+	emitted       map[int]bool
+	declared      map[string]bool
+	depth         int
+	Queries       int
+	NSat          int
+	NUnsat        int
+	NUnknown      int
+	Time          time.Duration
+	ModelTime     time.Duration
+	OneShots      int
+	TimeoutMs     int // per-query timeout of the incremental process
+	LongMs        int // timeout of one-shot (fresh process) queries
+	Log           io.Writer
+	seq           int
+	Errors        []string
+	WatchdogKills int
 }
 
 func NewSolver(kind string, timeoutMs int) (*Solver, error) {
+	s := &Solver{Kind: kind, TimeoutMs: timeoutMs, LongMs: timeoutMs}
+	if err := s.start(); err != nil {
+		return nil, err
+	}
+	return s, nil
+}
+
+// start launches (or relaunches) the solver process with empty state.
+func (s *Solver) start() error {
+	kind, timeoutMs := s.Kind, s.TimeoutMs
 	var cmd *exec.Cmd
 	switch kind {
 	case "z3":
@@ -55,21 +68,27 @@ func NewSolver(kind string, timeoutMs int) (*Solver, error) {
 	case "cvc5":
 		cmd = exec.Command("cvc5", "--incremental", "--lang", "smt2", "--produce-models", "--global-declarations", fmt.Sprintf("--tlimit-per=%d", timeoutMs))
 	default:
-		return nil, fmt.Errorf("unknown solver %q", kind)
+		return fmt.Errorf("unknown solver %q", kind)
 	}
 	in, err := cmd.StdinPipe()
 	if err != nil {
-		return nil, err
+		return err
 	}
 	outp, err := cmd.StdoutPipe()
 	if err != nil {
-		return nil, err
+		return err
 	}
 	cmd.Stderr = os.Stderr
 	if err := cmd.Start(); err != nil {
-		return nil, err
+		return err
 	}
-	s := &Solver{Kind: kind, cmd: cmd, in: in, out: bufio.NewReaderSize(outp, 1<<20), emitted: map[int]bool{}, declared: map[string]bool{}, TimeoutMs: timeoutMs}
+	s.cmd, s.in, s.out = cmd, in, bufio.NewReaderSize(outp, 1<<20)
+	if d := os.Getenv("VERIF_SMTLOG"); d != "" && s.Log == nil {
+		if f, err := os.Create(fmt.Sprintf("%s.%d.%d.smt2", d, os.Getpid(), cmd.Process.Pid)); err == nil {
+			s.Log = f
+		}
+	}
+	s.emitted, s.declared, s.depth = map[int]bool{}, map[string]bool{}, 0
 	if kind == "cvc5" {
 		s.send("(set-logic ALL)")
 	} else {
@@ -77,7 +96,7 @@ func NewSolver(kind string, timeoutMs int) (*Solver, error) {
 		s.send("(set-option :produce-models true)")
 		s.send(fmt.Sprintf("(set-option :timeout %d)", timeoutMs))
 	}
-	return s, nil
+	return nil
 }
 
 func (s *Solver) Close() {
@@ -199,9 +218,13 @@ func (s *Solver) Check() Result { return s.checkCmd("(check-sat)") }
 func (s *Solver) checkCmd(cmd string) Result {
 	t0 := time.Now()
 	s.send(cmd)
-	lines := s.sync()
+	lines, killed := s.syncWatched()
 	s.Time += time.Since(t0)
 	s.Queries++
+	if killed {
+		s.NUnknown++
+		return Unknown
+	}
 	res := Unknown
 	got := false
 	for _, l := range lines {
@@ -231,6 +254,35 @@ func (s *Solver) checkCmd(cmd string) Result {
 		s.NUnknown++
 	}
 	return res
+}
+
+// syncWatched is sync under a watchdog: the solver's own timeout is a soft one (z3 does
+// not interrupt some preprocessing steps, nor model construction for get-value); an
+// answer that overruns it by 50% + 5 s is not waited for: the process is killed, the
+// query counts as unknown, and the solver is restarted with empty state (terms are
+// re-defined on demand; nothing is ever asserted permanently).
+func (s *Solver) syncWatched() ([]string, bool) {
+	proc := s.cmd.Process
+	var fired int32
+	wd := time.AfterFunc(time.Duration(s.TimeoutMs)*time.Millisecond*3/2+5*time.Second, func() {
+		atomic.StoreInt32(&fired, 1)
+		proc.Kill()
+	})
+	lines := s.sync()
+	wd.Stop()
+	if atomic.LoadInt32(&fired) == 0 {
+		return lines, false
+	}
+	s.in.Close()
+	s.cmd.Wait()
+	s.WatchdogKills++
+	if n := len(s.Errors); n > 0 && strings.HasPrefix(s.Errors[n-1], "solver died") {
+		s.Errors = s.Errors[:n-1]
+	}
+	if err := s.start(); err != nil {
+		s.Errors = append(s.Errors, "solver restart failed: "+err.Error())
+	}
+	return nil, true
 }
 
 // CheckWith checks the stack plus extra assumptions (scoped).
@@ -287,8 +339,11 @@ func (s *Solver) CheckModel(ts []*Term, extra ...*Term) (Result, []ModelValue) {
 		}
 		tg := time.Now()
 		s.send("(get-value (" + strings.Join(refs, " ") + "))")
-		lines := s.sync()
+		lines, killed := s.syncWatched()
 		s.ModelTime += time.Since(tg)
+		if killed {
+			return Unknown, nil
+		}
 		txt := strings.Join(lines, " ")
 		if strings.Contains(txt, "(error") {
 			s.Errors = append(s.Errors, txt)
